@@ -3,6 +3,29 @@
 #include "kit/floats.hpp"
 using namespace vk;
 
+template<class V> void sweep(const char*, std::false_type) {}
+template<class V> void sweep(const char* type, std::true_type) {
+    typedef typename V::scalar T;
+    if (!opt().thorough) return;
+    SameFp<T> eq;
+    // every one of the 2^32 float patterns; ceil/floor/trunc/round under round-to-nearest and one rotating other mode,
+    // nearbyint/rint under all four modes
+    for (int mi = 0; mi < 4; ++mi) {
+        const int mode = ROUND_MODES[mi];
+        fp_set(mode, false);
+        std::string sfx = std::string("@") + round_name(mode) + "/all2^32";
+        if (mi == 0 || mi == 1 + (int)(opt().seed % 3)) {
+            fsweep32<V, T>("C11", type, ("ceil" + sfx).c_str(), [](V a) { return avel::to_array(avel::ceil(a)); }, [](T a, T& o) { o = Libm<T>::ceil()(a); return true; }, eq);
+            fsweep32<V, T>("C11", type, ("floor" + sfx).c_str(), [](V a) { return avel::to_array(avel::floor(a)); }, [](T a, T& o) { o = Libm<T>::floor()(a); return true; }, eq);
+            fsweep32<V, T>("C11", type, ("trunc" + sfx).c_str(), [](V a) { return avel::to_array(avel::trunc(a)); }, [](T a, T& o) { o = Libm<T>::trunc()(a); return true; }, eq);
+            fsweep32<V, T>("C11", type, ("round" + sfx).c_str(), [](V a) { return avel::to_array(avel::round(a)); }, [](T a, T& o) { o = Libm<T>::round()(a); return true; }, eq);
+        }
+        fsweep32<V, T>("C11", type, ("nearbyint" + sfx).c_str(), [](V a) { return avel::to_array(avel::nearbyint(a)); }, [](T a, T& o) { o = Libm<T>::nearbyint()(a); return true; }, eq);
+        fsweep32<V, T>("C11", type, ("rint" + sfx).c_str(), [](V a) { return avel::to_array(avel::rint(a)); }, [](T a, T& o) { o = Libm<T>::rint()(a); return true; }, eq);
+    }
+    fp_set(FE_TONEAREST, false);
+}
+
 template<class V>
 void run(const char* type) {
     typedef typename V::scalar T;
@@ -22,6 +45,7 @@ void run(const char* type) {
         fdrive_unary<V, T>("C11", type, ("rint" + sfx).c_str(), vals, [](V a) { return avel::to_array(avel::rint(a)); }, [](T a, T& o) { o = Libm<T>::rint()(a); return true; }, eq);
     }
     fp_set(FE_TONEAREST, false);
+    sweep<V>(type, SweepThis<V>());
 }
 
 int main(int argc, char** argv) {
